@@ -28,6 +28,10 @@ class PathAbort(Exception):
     """The current path is infeasible or has been cut (loop-invariant preservation end)."""
 
 
+class FrontierReached(PathAbort):
+    """Frontier pass of a sharded exploration: the path has used its budget of branching decisions."""
+
+
 class ReturnSignal(Exception):
     def __init__(self, value):
         self.value = value
